@@ -466,6 +466,7 @@ func (c *FnCtx) assignTo(st *State, l ast.Expr, v *Val) {
 }
 
 func (c *FnCtx) assignField(st *State, x *ast.SelectorExpr, sel *types.Selection, v *Val) {
+	v = c.nilTo(v, sel.Type())
 	// evaluate base, follow all but last index, then store
 	base := c.eval(st, x.X)
 	t := sel.Recv()
